@@ -9,6 +9,7 @@ use crate::schema::Implementers;
 use crate::validation::diagnostics::DiagnosticData;
 use crate::validation::variable::walk_selections_with_deduped_fragments;
 use crate::validation::CycleError;
+use crate::validation::DepthGuard;
 use crate::validation::DiagnosticList;
 use crate::validation::OperationValidationContext;
 use crate::validation::RecursionGuard;
@@ -116,13 +117,14 @@ fn validate_fragment_spread_type(
     }
 }
 
-pub(crate) fn validate_inline_fragment(
+pub(super) fn validate_inline_fragment(
     diagnostics: &mut DiagnosticList,
     document: &ExecutableDocument,
     against_type: Option<(&crate::Schema, &ast::NamedType)>,
     inline: &Node<executable::InlineFragment>,
     context: &mut OperationValidationContext<'_>,
-) {
+    guard: &mut DepthGuard<'_>,
+) -> Result<(), RecursionLimitError> {
     super::directive::validate_directives(
         diagnostics,
         context.schema(),
@@ -155,7 +157,7 @@ pub(crate) fn validate_inline_fragment(
                 context,
             );
         }
-        super::selection::validate_selection_set(
+        super::selection::validate_nested_selection_set(
             diagnostics,
             document,
             if let (Some(schema), Some(ty)) = (&context.schema(), &inline.type_condition) {
@@ -165,17 +167,20 @@ pub(crate) fn validate_inline_fragment(
             },
             &inline.selection_set,
             context,
-        );
+            guard.increment()?,
+        )?;
     }
+    Ok(())
 }
 
-pub(crate) fn validate_fragment_spread(
+pub(super) fn validate_fragment_spread(
     diagnostics: &mut DiagnosticList,
     document: &ExecutableDocument,
     against_type: Option<(&crate::Schema, &NamedType)>,
     spread: &Node<executable::FragmentSpread>,
     context: &mut OperationValidationContext<'_>,
-) {
+    guard: &mut DepthGuard<'_>,
+) -> Result<(), RecursionLimitError> {
     super::directive::validate_directives(
         diagnostics,
         context.schema(),
@@ -201,7 +206,13 @@ pub(crate) fn validate_fragment_spread(
                 .validated_fragments
                 .insert(spread.fragment_name.clone());
             if new {
-                validate_fragment_definition(diagnostics, document, def, context);
+                validate_fragment_definition(
+                    diagnostics,
+                    document,
+                    def,
+                    context,
+                    guard.increment()?,
+                )?;
             }
         }
         None => {
@@ -213,14 +224,16 @@ pub(crate) fn validate_fragment_spread(
             );
         }
     }
+    Ok(())
 }
 
-pub(crate) fn validate_fragment_definition(
+pub(super) fn validate_fragment_definition(
     diagnostics: &mut DiagnosticList,
     document: &ExecutableDocument,
     fragment: &Node<executable::Fragment>,
     context: &mut OperationValidationContext<'_>,
-) {
+    guard: DepthGuard<'_>,
+) -> Result<(), RecursionLimitError> {
     super::directive::validate_directives(
         diagnostics,
         context.schema(),
@@ -256,14 +269,16 @@ pub(crate) fn validate_fragment_definition(
                 .then_some((schema, fragment.type_condition()))
         });
 
-        super::selection::validate_selection_set(
+        super::selection::validate_nested_selection_set(
             diagnostics,
             document,
             type_condition,
             &fragment.selection_set,
             context,
-        );
+            guard,
+        )?;
     }
+    Ok(())
 }
 
 pub(crate) fn validate_fragment_cycles(
